@@ -49,6 +49,11 @@ func (dht *DHT) FindPeer(ctx context.Context, pid peer.ID) (pi peer.AddrInfo, er
   ensures [internal-error-only-if-both-failed] imp(err != nil, wanErr != nil && lanErr != nil)
   ensures [internal-lan-only] imp(len(wanInfo.Addrs) == 0, pi.Addrs == lanInfo.Addrs)
   ensures [internal-wan-only] imp(len(wanInfo.Addrs) != 0 && len(lanInfo.Addrs) == 0, pi.Addrs == wanInfo.Addrs)
+  # union: when both sides returned addresses, the addresses of BOTH results
+  # are entered into the de-duplication map, and every entry of the map is returned
+  loop over wanInfo.Addrs invariant deduped != nil
+  loop over lanInfo.Addrs invariant deduped != nil
+  loop over deduped invariant deduped != nil
 
 # C03/C08: both inner searches run under the request context this operation
 # cancels when it ends (reqCtx) - not merely under the caller's context: when
